@@ -1771,3 +1771,168 @@ def r_numtext(ctx) -> RuleResult:
     res.counts = {"trim_or_cut_sites": n_sites, "on_number_text": n_numeric, "fixture_detected": 1}
     res.notes.append("expected count on today's tree is zero: the writer formats numbers and writes them as they are")
     return res
+
+
+# --------------------------------------------------------------------------- R-WRITESAMPLE
+
+
+@rule("R-WRITESAMPLE")
+def r_writesample(ctx) -> RuleResult:
+    res = RuleResult("R-WRITESAMPLE", "what the writer makes of sample molecules is the V3000 connection table the format prescribes for them: counts, one atom line per atom in order with its element, coordinates and properties, one bond line per bond, no line over 80 characters, long lines continued")
+    import copy
+    from ..concrete import PathEval, PState, SampleClock, SampleGraph, SamplePackage, _Unknown
+    from .common import sample_evaluator
+    from .spec import V3000_CONTINUATION, V3000_LINE_PREFIX
+    w = entry(ctx, "write")
+    const = lambda n: ctx.repo.const("tucan.graph_attributes", n)  # noqa: E731
+    SYM, Z, CHG_, MASS_, RAD_, X_, Y_, Z_C, BT, PART = (const(n) for n in ("ELEMENT_SYMBOL", "ATOMIC_NUMBER", "CHG", "MASS", "RAD", "X_COORD", "Y_COORD", "Z_COORD", "BOND_TYPE", "PARTITION"))
+
+    def atom(sym, z, xyz=None, **props):
+        d = {SYM: sym, Z: z, PART: 0}
+        if xyz is not None:
+            d.update({X_: xyz[0], Y_: xyz[1], Z_C: xyz[2]})
+        for k, v in props.items():
+            d[{"chg": CHG_, "mass": MASS_, "rad": RAD_}[k]] = v
+        return d
+    big = 123456789.123456
+    samples = [
+        ("three atoms with a charge, an isotope and a radical, two bonds of different type",
+         {0: atom("C", 6, (1.5, -2.25, 0.125), chg=-1, mass=13), 1: atom("N", 7, (0.0, 0.0, 0.0), rad=2), 2: atom("Cl", 17, (3.0, 1.0, -1.0))},
+         [(0, 1, {BT: 2}), (1, 2, {BT: 1})]),
+        ("an atom line that does not fit into one line",
+         {0: atom("Fe", 26, (big, -big, big), chg=15, mass=57, rad=3), 1: atom("C", 6, (-big, big, -big), chg=-15, mass=13, rad=1)},
+         [(0, 1, {BT: 9})]),
+        ("a single atom, no bond", {0: atom("He", 2, (0.0, 0.0, 0.0), mass=3)}, []),
+        ("a molecule parsed from a TUCAN string: no coordinates, no bond types",
+         {0: atom("H", 1, mass=1), 1: atom("H", 1, mass=2), 2: atom("O", 8, rad=2)}, [(0, 2, {}), (1, 2, {})]),
+        ("atoms listed in an order that is not their label order", {2: atom("C", 6, (0.0, 0.0, 0.0)), 0: atom("O", 8, (1.0, 0.0, 0.0)), 1: atom("N", 7, (2.0, 0.0, 0.0))},
+         [(2, 0, {BT: 2}), (0, 1, {BT: 1})]),
+    ]
+    ps = params_of(w.node)
+    n_followed = 0
+
+    def unwrap(lines):
+        out, i = [], 0
+        while i < len(lines):
+            cur = lines[i]
+            i += 1
+            while i < len(lines) and cur.startswith(V3000_LINE_PREFIX) and cur.endswith(V3000_CONTINUATION):
+                if not lines[i].startswith(V3000_LINE_PREFIX):
+                    return None
+                cur = cur[:-1] + lines[i][len(V3000_LINE_PREFIX):]
+                i += 1
+            out.append(cur)
+        return out
+
+    def judge(nodes, edges, text):
+        """None if the text is the connection table of the sample, else what is wrong"""
+        lines = text.split("\n")
+        long_ = [l for l in lines if len(l) > 79]
+        if long_:
+            return f"the line `{long_[0][:40]}...` has {len(long_[0])} characters (80 with the line end is the limit)"
+        if len(lines) < 5 or not lines[3].rstrip().endswith("V3000"):
+            return "the fourth line is not the V3000 version line"
+        logical = unwrap(lines[4:])
+        if logical is None:
+            return "a continued line is not followed by a `M  V30 ` line"
+        if not logical or logical[-1].strip() != "M  END":
+            return "the file does not end with `M  END`"
+        toks = [l.split()[2:] for l in logical[:-1] if l.startswith(V3000_LINE_PREFIX.rstrip())]
+        if len(toks) != len(logical) - 1:
+            return "a line of the connection table does not begin with `M  V30 `"
+        it = iter(toks)
+
+        def expect(*words):
+            t = next(it, None)
+            return None if t is not None and t[:len(words)] == list(words) else f"expected `{' '.join(words)}`, found `{' '.join(t) if t is not None else 'nothing'}`"
+        err = expect("BEGIN", "CTAB")
+        if err:
+            return err
+        t = next(it, None)
+        if t is None or t[:3] != ["COUNTS", str(len(nodes)), str(len(edges))]:
+            return f"counts line `{' '.join(t or [])}` does not say {len(nodes)} atoms and {len(edges)} bonds"
+        err = expect("BEGIN", "ATOM")
+        if err:
+            return err
+        index_of = {}
+        for k, (label, d) in enumerate(nodes.items(), start=1):
+            t = next(it, None)
+            if t is None or len(t) < 5:
+                return f"atom line {k} is missing or short: `{' '.join(t or [])}`"
+            if not t[0].isdigit() or int(t[0]) < 1 or int(t[0]) in index_of.values():
+                return f"atom line {k} has the index `{t[0]}` (indices are positive and unique)"
+            index_of[label] = int(t[0])
+            if t[1] != d[SYM]:
+                return f"atom line {k} is `{' '.join(t[:2])} ...`, the {k}. atom of the graph is {d[SYM]} (atoms are written in the order of the graph)"
+            for j, key in enumerate((X_, Y_, Z_C)):
+                try:
+                    got = float(t[2 + j])
+                except ValueError:
+                    return f"atom line {k}: `{t[2 + j]}` is not a coordinate"
+                if key in d and abs(got - d[key]) > 5e-7 * max(1.0, abs(d[key])) + 5e-7:
+                    return f"atom line {k}: coordinate {'xyz'[j]} is written as {t[2 + j]}, the atom has {d[key]!r}"
+            rest = [x for x in t[5:] if "=" in x]
+            want = {f"{kw}={d[key]}" for kw, key in (("CHG", CHG_), ("MASS", MASS_), ("RAD", RAD_)) if d.get(key)}
+            if set(rest) != want or len(rest) != len(set(rest)):
+                return f"atom line {k} carries {sorted(rest)}, the atom has {sorted(want)}"
+        err = expect("END", "ATOM")
+        if err:
+            return err
+        t = next(it, None)
+        if edges or (t is not None and t[:2] == ["BEGIN", "BOND"]):
+            if t is None or t[:2] != ["BEGIN", "BOND"]:
+                return f"expected `BEGIN BOND`, found `{' '.join(t or [])}`"
+            seen = []
+            for k in range(1, len(edges) + 1):
+                t = next(it, None)
+                if t is None or len(t) < 4 or not all(x.lstrip("-").isdigit() for x in t[:4]):
+                    return f"bond line {k} is missing or not four numbers: `{' '.join(t or [])}`"
+                if int(t[0]) != k:
+                    return f"bond line {k} is numbered {t[0]}"
+                seen.append((int(t[1]), frozenset((int(t[2]), int(t[3])))))
+            want_b = [(d.get(BT), frozenset((index_of[a], index_of[b]))) for a, b, d in edges]
+            for (gt, ge), (wt, we) in zip(sorted(seen, key=lambda x: sorted(x[1])), sorted(want_b, key=lambda x: sorted(x[1]))):
+                if ge != we:
+                    return f"a bond is written between the atom lines {sorted(ge)}, the graph has it between {sorted(we)}"
+                if wt is not None and gt != wt:
+                    return f"the bond between the atom lines {sorted(we)} is written with type {gt}, the graph has {wt}"
+            err = expect("END", "BOND")
+            if err:
+                return err
+            t = next(it, None)
+        if t is None or t[:2] != ["END", "CTAB"]:
+            return f"expected `END CTAB`, found `{' '.join(t or [])}`"
+        return None
+    for what, nodes, edges in samples:
+        pe, env = sample_evaluator(ctx, w, {"datetime": SampleClock(), "tucan": SamplePackage()})
+        env[ps[0]] = SampleGraph(nodes, edges)
+        for p_ in ps[1:]:
+            k = ps.index(p_) - (len(ps) - len(w.node.args.defaults))
+            d_ = w.node.args.defaults[k] if k >= 0 else None
+            env[p_] = d_.value if isinstance(d_, ast.Constant) else False
+        try:
+            falls, lefts = pe.block(w.node.body, [PState(env)])
+        except (NameError, UnboundLocalError):
+            raise
+        except Exception:
+            continue
+        rets = [v_ for _s, how, v_ in lefts if how == "return"]
+        raised = [1 for _s, how, _v in lefts if how == "raise"]
+        if pe.gaps or falls or not (rets or raised):
+            continue
+        if raised and not rets:
+            n_followed += 1
+            res.inst(w.fq, f"sample molecule: {what}", "fail")
+            res.fail(Finding("R-WRITESAMPLE", w.module.rel, w.qualname, f"{what}: raises", f"following {w.name} on a sample molecule ({what}) ends in a raise on every way through", line=w.node.lineno))
+            break
+        if not all(isinstance(v_, str) for v_ in rets):
+            continue
+        n_followed += 1
+        verdicts = [judge(nodes, edges, v_) for v_ in rets]
+        bad = all(v_ is not None for v_ in verdicts)
+        res.inst(w.fq, f"sample molecule: {what}", "fail" if bad else "ok")
+        if bad:
+            res.fail(Finding("R-WRITESAMPLE", w.module.rel, w.qualname, f"{what}", f"following {w.name} on a sample molecule ({what}): {verdicts[0]}", line=w.node.lineno))
+            break
+    res.counts = {"sample_molecules_followed": n_followed}
+    return res
